@@ -15,6 +15,12 @@ use std::time::Instant;
 
 pub const SHARDS: u64 = 16;
 
+/// `--strict`: run the search with all known-finding exemptions disabled (used to (re)derive minimal replays)
+pub static STRICT: std::sync::atomic::AtomicBool = std::sync::atomic::AtomicBool::new(false);
+pub fn strict_mode() -> bool {
+    STRICT.load(std::sync::atomic::Ordering::Relaxed)
+}
+
 #[derive(Clone, Debug)]
 pub struct Fail {
     pub msg: String,
@@ -164,13 +170,13 @@ impl<T: Clone + std::fmt::Debug + Hash + Serialize + DeserializeOwned + Send + S
             ..Config::default()
         };
         let mut runner = TestRunner::new(cfg);
-        let stats = RefCell::new(Stats::default());
+        let stats = RefCell::new(Stats { strict: strict_mode(), ..Stats::default() });
         let failed = RefCell::new(false);
         let strategy = (self.strategy)();
         let res = runner.run(&strategy, |t: T| {
             if *failed.borrow() {
                 // shrinking: do not count
-                let mut scratch = Stats::default();
+                let mut scratch = Stats { strict: strict_mode(), ..Stats::default() };
                 return match run_case(&self.f, &t, &mut scratch) {
                     Ok(()) => Ok(()),
                     Err(e) => Err(TestCaseError::fail(e.msg)),
@@ -185,7 +191,7 @@ impl<T: Clone + std::fmt::Debug + Hash + Serialize + DeserializeOwned + Send + S
                         let h = hash_of(&t);
                         let fresh = st.nontrivial.insert(h);
                         if fresh && st.samples.len() < 1 {
-                            let mut scratch = Stats::default();
+                            let mut scratch = Stats { strict: strict_mode(), ..Stats::default() };
                             scratch.trace = true;
                             let _ = run_case(&self.f, &t, &mut scratch);
                             if let Some(s) = scratch.samples.pop() {
@@ -248,7 +254,7 @@ impl<T: Clone + std::fmt::Debug + Hash + Serialize + DeserializeOwned + Send + S
         for (s, f) in results {
             stats.absorb(s);
             if let Some((t, _reason)) = f {
-                if let Some(jf) = self.failure_of(&t, false) {
+                if let Some(jf) = self.failure_of(&t, strict_mode()) {
                     // keep the smallest rendering
                     let size = jf.input.to_string().len();
                     if failure.as_ref().map(|o| o.input.to_string().len() > size).unwrap_or(true) {
@@ -468,7 +474,7 @@ pub fn run_property(p: &Property, tier: &str, seed: u64, verif_dir: &str, only_j
     std::fs::create_dir_all(format!("{verif_dir}/replays")).ok();
     for f in &violations {
         let body = json!({
-            "property": p.id, "job": f.label, "input": f.input, "message": f.msg, "detail": f.detail, "history": f.rendering,
+            "property": p.id, "job": f.label, "strict": strict_mode(), "input": f.input, "message": f.msg, "detail": f.detail, "history": f.rendering,
         });
         let h = hash_of(&body.to_string());
         let path = format!("{verif_dir}/replays/{}-{:016x}.json", p.id, h);
